@@ -10,10 +10,11 @@ RULE = ("correspondence: Aggregate / AggregateVerify / FastAggregateVerify / _Ag
         "of size 1..n, repeated keys, repeated messages, permutations and regroupings, every single-element perturbation of "
         "(keys, messages, aggregate), length mismatches, empty inputs; predicates: Aggregate == encoding of the oracle's group sum, order and "
         "grouping independence, accept iff the supplied signature equals the sum and the suite preconditions hold")
-HYPOTHESES = ["PairingFacts' (C01_ProtoHB2): HB1 = additivity of the reduced pairing in each argument on r-torsion points (needs divisors / Weil reciprocity; not in Mathlib); ND = non-degeneracy against the generator (r.Q = 0 -> e(Q, g1) = 1 -> Q = 0); HB1' = the model's Miller loop + final exponentiation compute e. HB2 (group orders) and HT6 (hash_to_G2 lands in the subgroup, never raises) are PROVED and no longer assumed"]
-NOT_YET_PROVED = ["the three fields of PairingFacts' themselves (Aggregate = group sum, order/grouping independence, error behaviour are unconditional theorems)"]
+HYPOTHESES = ["ModelBilinearCode (C01_ProtoModel / Lemmas/ModelPairing): the pairing function the code itself computes is additive in each argument on canonical on-curve subgroup triples — pairing(add(Q,Q'),P) == pairing(Q,P)*pairing(Q',P) and pairing(Q,add(P,P')) == pairing(Q,P)*pairing(Q,P') (HB1; needs divisor theory, not in Mathlib). It is the ONLY remaining hypothesis: group orders (HB2), hash_to_G2 total and in the subgroup (HT6), non-degeneracy (kernel-evaluated e(G2,G1) != 1 + cyclic torsion) and 'the Miller loop computes e' (representative independence via optimized = reference pairing) are all theorems"]
+NOT_YET_PROVED = ['bilinearity of the model pairing (Aggregate = group sum, order/grouping independence, error behaviour are unconditional)']
 ASSUMPTIONS = ["FastAggregateVerify returns False when the AGGREGATE public key is the identity (IETF-mandated KeyValidate of the aggregate)"]
 nontrivial = nontrivial_default
+EXTRA_MODULES = {"Props.C01_ProtoHB2": "PyEcc.C03.", "Props.C01_ProtoND": "PyEcc.C03.", "Props.C01_ProtoModel": "PyEcc.C03."}
 CHUNK = 2
 
 
